@@ -12,6 +12,9 @@ for mp in sorted(glob.glob(os.path.join(ROOT, "seeded", "*", "meta.json"))):
     m = json.load(open(mp))
     if want and m["seed"] not in want:
         continue
+    if m.get("superseded"):
+        print(f"{m['seed']}: superseded ({m['superseded'][:60]}...) -- skipped")
+        continue
     if not m.get("detected_by"):
         print(f"{m['seed']}: recorded as not detected -- skipped")
         continue
